@@ -21,6 +21,7 @@ def check(model, R, tier):
     from sa.rules_flags import check_flags
     check_flags(model, R, 'C01', 'synapgrad.functional', rules=('COVER',))
     K.check_glin(model, R, ops, 'C01')
+    K.check_homog(model, R, 'C01', names=('mul_backward', 'matmul_backward', 'addmm_backward'))
     K.check_perm(model, R, ops, 'C01')
     K.check_unbroadcast(model, R, ops, 'C01')
     kernels = [model.func(d) for d in sorted({d for o in ops for d, _, _ in o.bwd_calls})]
